@@ -43,9 +43,10 @@ CertRule(p) ==
     IF \E i \in 1..n : cs[i].cls \notin TRCClasses THEN "cert-unclassifiable"
     ELSE IF \E i \in 1..n : cs[i].isd # 0 /\ cs[i].isd # p.isd THEN "cert-other-isd"
     ELSE IF \E i \in 1..n : ~(cs[i].nb <= p.nb /\ p.na <= cs[i].na) THEN "cert-validity-not-covering"
-    ELSE IF \E i, j \in 1..n : i # j /\ IssDN(cs[i]) = IssDN(cs[j]) /\ cs[i].sn = cs[j].sn
+    \* (formulated with cardinalities: linear instead of quadratic for the 513-certificate payload)
+    ELSE IF Cardinality({<<IssDN(cs[i]), cs[i].sn>> : i \in 1..n}) # n
         THEN "cert-duplicate-issuer-serial"
-    ELSE IF \E i, j \in 1..n : i # j /\ cs[i].cls = cs[j].cls /\ SubjDN(cs[i]) = SubjDN(cs[j])
+    ELSE IF \E cl \in TRCClasses : Cardinality({SubjDN(cs[i]) : i \in Idx(cs, cl)}) # Cardinality(Idx(cs, cl))
         THEN "cert-duplicate-subject-in-class"
     ELSE ""
 
